@@ -62,14 +62,23 @@ type Term struct {
 }
 
 // Store hash-conses terms. Not safe for concurrent use; one per worker/run.
+type tkey struct {
+	op         Op
+	w          uint8
+	n          uint8
+	val        uint64
+	a0, a1, a2 int32
+}
+
 type Store struct {
 	tab  map[string]*Term
+	tab3 map[tkey]*Term
 	next int
 	Vars map[string]*Term
 }
 
 func NewStore() *Store {
-	return &Store{tab: map[string]*Term{}, Vars: map[string]*Term{}}
+	return &Store{tab: map[string]*Term{}, tab3: make(map[tkey]*Term, 64), Vars: map[string]*Term{}}
 }
 
 func mask(w uint8) uint64 {
@@ -80,14 +89,33 @@ func mask(w uint8) uint64 {
 }
 
 func (s *Store) intern(t *Term) *Term {
-	var sb strings.Builder
-	fmt.Fprintf(&sb, "%d|%d|%d|%s", t.Op, t.W, t.Val, t.Name)
-	for _, a := range t.Args {
-		fmt.Fprintf(&sb, "|%d", a.ID)
-	}
-	k := sb.String()
-	if e, ok := s.tab[k]; ok {
-		return e
+	var k string
+	var k3 tkey
+	small := len(t.Args) <= 3 && t.Op != OpVar
+	if small {
+		k3 = tkey{op: t.Op, w: t.W, val: t.Val, n: uint8(len(t.Args))}
+		if len(t.Args) > 0 {
+			k3.a0 = int32(t.Args[0].ID)
+		}
+		if len(t.Args) > 1 {
+			k3.a1 = int32(t.Args[1].ID)
+		}
+		if len(t.Args) > 2 {
+			k3.a2 = int32(t.Args[2].ID)
+		}
+		if e, ok := s.tab3[k3]; ok {
+			return e
+		}
+	} else {
+		var sb strings.Builder
+		fmt.Fprintf(&sb, "%d|%d|%d|%s", t.Op, t.W, t.Val, t.Name)
+		for _, a := range t.Args {
+			fmt.Fprintf(&sb, "|%d", a.ID)
+		}
+		k = sb.String()
+		if e, ok := s.tab[k]; ok {
+			return e
+		}
 	}
 	s.next++
 	t.ID = s.next
@@ -109,7 +137,11 @@ func (s *Store) intern(t *Term) *Term {
 		mix(a.H)
 	}
 	t.H = h
-	s.tab[k] = t
+	if small {
+		s.tab3[k3] = t
+	} else {
+		s.tab[k] = t
+	}
 	return t
 }
 
